@@ -31,6 +31,9 @@ def make_on_cond(received):
         leaves = kdsl.cond_leaves(hev)
         my_step = hev.processed_step
         exp = [l for l in leaves if l.processed_step is not None and l.processed_step < my_step]
+        if not hasattr(v, "keys") or not hasattr(v, "todict"):
+            h.flag("C05.value", f"{hev.name} delivered {v!r} instead of a mapping of its processed operands", "C05.value/type")
+            return
         try:
             got = list(v.keys())
             if len(got) != len(exp) or any(a is not b.ev for a, b in zip(got, exp)):
